@@ -6,7 +6,6 @@ package interp
 
 import (
 	"github.com/bmatcuk/doublestar/v4"
-	"reflect"
 	"gopkg.in/yaml.v3"
 	"encoding/json"
 	"fmt"
@@ -1022,23 +1021,26 @@ func init() {
 			panic(unsupported{"yaml.Unmarshal of symbolic data"})
 		}
 		b, _ := data.([]byte)
-		target := a[1].(iface)
-		ptr, isPtr := target.v.(*value)
-		pt, isPT := target.t.Underlying().(*types.Pointer)
-		if !isPtr || !isPT || pt.Elem().String() != "gopkg.in/yaml.v3.Node" {
-			panic(unsupported{"yaml.Unmarshal into " + target.t.String() + " (reflection-driven decoding)"})
-		}
 		var n yaml.Node
 		if err := yaml.Unmarshal(b, &n); err != nil {
 			return i.newError(err.Error())
 		}
-		i.nativeSeen = map[uintptr]*value{}
-		defer func() { i.nativeSeen = nil }()
-		np := i.fromNative(reflect.ValueOf(&n), pt).(*value)
-		*ptr = *np
-		return iface{}
+		if n.Kind == 0 {
+			return iface{} // empty document: the target is left untouched
+		}
+		return i.yamlDecodeTarget(fr, &n, a[1])
+	})
+	reg("(*gopkg.in/yaml.v3.Node).Decode", func(fr *frame, a []value) value {
+		n := fr.i.nodeToNative(a[0], map[*value]*yaml.Node{})
+		if n == nil {
+			panic(runtimeError("invalid memory address or nil pointer dereference (yaml.Node.Decode)"))
+		}
+		return fr.i.yamlDecodeTarget(fr, n, a[1])
 	})
 
+	reg("github.com/bmatcuk/doublestar/v4.ValidatePattern", func(fr *frame, a []value) value {
+		return doublestar.ValidatePattern(mustString(a[0], "doublestar pattern"))
+	})
 	reg("github.com/bmatcuk/doublestar/v4.MatchUnvalidated", func(fr *frame, a []value) value {
 		return doublestar.MatchUnvalidated(mustString(a[0], "doublestar pattern"), mustString(a[1], "doublestar name"))
 	})
@@ -1243,7 +1245,7 @@ func init() {
 		return nil
 	})
 	reg(pkgPrefix+"verifScheduleCheck", func(fr *frame, a []value) value {
-		fr.i.scheduleCheck(int(asInt64(a[0])))
+		fr.i.scheduleCheck(int(asInt64(a[0])), len(a) > 1 && asInt64(a[1]) != 0)
 		return nil
 	})
 	reg("context.Background", func(fr *frame, a []value) value { return iface{} })
